@@ -270,6 +270,9 @@ MUTANTS = [
      'replace': '(b:GraphNode:{node_label} {{ GraphID: $graphId}}) return c.NodeID"'},
     {'name': 'rules-json-unbound-var', 'file': 'fim/graph/data/graph_validation_rules.json', 'rule': 'R2',
      'find': 'WHERE o.Class <> \\"ConnectionPoint\\" return count(o)=0', 'replace': 'WHERE o.Class <> \\"ConnectionPoint\\" return count(x)=0'},
+    {'name': 'get_link_properties-comma-lost-in-map', 'file': NPG, 'rule': 'R1',
+     'find': 'query = f"MATCH (a:GraphNode {{GraphID:$graphId, NodeID:$nodeA}}) -[r]- " \\\n            f"(b:GraphNode {{GraphID:$graphId, NodeID:$nodeB}}) RETURN type(r), properties(r)"',
+     'replace': 'query = f"MATCH (a:GraphNode {{GraphID:$graphId NodeID:$nodeA}}) -[r]- " \\\n            f"(b:GraphNode {{GraphID:$graphId, NodeID:$nodeB}}) RETURN type(r), properties(r)"'},
     {'name': 'delete_graph-bracket-dropped', 'file': NPG, 'rule': 'R1', 'count': 2,
      'find': "'match (n:GraphNode {GraphID: $graphId })detach delete n'", 'replace': "'match (n:GraphNode {GraphID: $graphId )detach delete n'"},
 ]
